@@ -9,7 +9,8 @@ package main
 // <mode>: bare (NewZlisp) | std (NewZlisp + StandardSetup), optionally `*N` (rest only): the
 // whole history is served N times by the same interpreter. A text is a run of <form> tokens
 // up to the next `;;`; a form is one top-level expression with blank = `\s`, newline = `\n`,
-// backslash = `\\` (so a form is one token of the op line). `\e` is the empty text.
+// backslash = `\\` (so a form is one token of the op line). `\e` is the empty text; `$REPO`
+// stands for the directory of the tree under test.
 //
 // Answer of `rest` (what was observed, judged by Spec/AtRest.lean through Driver/Rest.lean):
 //
@@ -86,7 +87,8 @@ func restTexts(toks []string) [][]string {
 			cur = []string{}
 			continue
 		}
-		cur = append(cur, restDec(t))
+		// $REPO = the tree under test (its tests/*.g files serve include/source)
+		cur = append(cur, strings.ReplaceAll(restDec(t), "$REPO", repoDir()))
 	}
 	texts = append(texts, cur)
 	return texts
